@@ -22,6 +22,7 @@ VARIANTS = (
     ("failed", cases.RICH + (("rc:", 1),)),
     ("failed-sess", cases.RICH + (("sessions:", 1), ("rc:", 3))),
     ("encrypt", cases.RICH + (("sessions:", 1), ("attrs:", ("v", 0x40)))),
+    ("encrypt-first", cases.RICH + (("sessions:", 2), ("attrs:.authorizationArea[0]", ("v", 0x40)))),
     ("encrypt-empty", (("sessions:", 1), ("attrs:", ("v", 0x60)))),
     ("decrypt", cases.RICH + (("sessions:", 1), ("attrs:", ("v", 0x20)))),
     ("encrypt-pw", cases.RICH + (("sessions:", 1), ("attrs:", ("v", 0x40)), ("val:.authorizationArea[0].sessionHandle", ("v", 0x40000009)))),
